@@ -26,9 +26,16 @@ def main():
         mode = parts[2] if len(parts) > 2 else 'full'
         mod = importlib.import_module(modname)
         obj = mod
-        for a in attr.split('.'):
-            obj = getattr(obj, a)
+        try:
+            for a in attr.split('.'):
+                obj = getattr(obj, a)
+        except AttributeError:
+            out.setdefault('absent', []).append(spec)   # pattern no longer exists in the module: nothing to model
+            continue
         rec = obj
+        if not hasattr(rec, 'pattern'):
+            out.setdefault('absent', []).append(spec)
+            continue
         R = Rx(rec.pattern, rec.flags & ~32)   # 32 = re.UNICODE (implicit for str patterns)
         alpha = [chr(c) for c in R.alphabet()]
         if len(alpha) > 9:
